@@ -487,6 +487,98 @@ fn main() {
             let path = args.get(2).cloned().unwrap_or_default();
             replay(&path, args.iter().any(|a| a == "--trace"), args.iter().any(|a| a == "--progress"), get("--prop"))
         }
+        "gen-corpus" => {
+            // seed corpus for the coverage-guided target: proptest cases of this property's random
+            // jobs, encoded with the byte format of decode.rs
+            let prop = get("--prop").unwrap_or_default();
+            let family = get("--family").unwrap_or_default();
+            let nwant: usize = get("--n").and_then(|s| s.parse().ok()).unwrap_or(64);
+            let seed: u64 = get("--seed").and_then(|s| s.parse().ok()).unwrap_or(0);
+            let out = PathBuf::from(get("--out").unwrap_or_else(|| ".".into()));
+            std::fs::create_dir_all(&out).ok();
+            let Some(pn) = prop_num(&prop) else { std::process::exit(2) };
+            let mut written = 0usize;
+            for job in jobs(pn, Tier::Quick) {
+                if let JobKind::Random { strategy, .. } = &job.kind {
+                    let mut seed_bytes = [0u8; 32];
+                    for (i, chunk) in seed_bytes.chunks_mut(8).enumerate() {
+                        chunk.copy_from_slice(&splitmix(seed.wrapping_add(i as u64 + 77)).to_le_bytes());
+                    }
+                    let rng = TestRng::from_seed(RngAlgorithm::ChaCha, &seed_bytes);
+                    let mut runner = TestRunner::new_with_rng(Config { failure_persistence: None, ..Config::default() }, rng);
+                    let mut tries = 0;
+                    let mut mine = 0;
+                    while mine < nwant && tries < nwant * 4 {
+                        tries += 1;
+                        let Ok(tree) = strategy.new_tree(&mut runner) else { continue };
+                        let case = tree.current();
+                        if case.family != family || case.ops.len() > 150 {
+                            continue;
+                        }
+                        let bytes = itree_verif::decode::encode(&case);
+                        let _ = std::fs::write(out.join(format!("seed-{}-{:04}", job.name, mine)), bytes);
+                        mine += 1;
+                        written += 1;
+                    }
+                }
+            }
+            println!("{} corpus files written", written);
+            0
+        }
+        "decode" => {
+            let prop = get("--prop").unwrap_or_default();
+            let family = get("--family").unwrap_or_default();
+            let path = args.get(2).cloned().unwrap_or_default();
+            match std::fs::read(&path) {
+                Ok(bytes) => {
+                    let case = itree_verif::decode::decode(&family, &prop, &bytes);
+                    print!("{}", text_of(&case));
+                    0
+                }
+                Err(e) => {
+                    eprintln!("cannot read {}: {}", path, e);
+                    2
+                }
+            }
+        }
+        "shrink" => {
+            // in-process ddmin of a failing case file; prints the shrunk case
+            let path = args.get(2).cloned().unwrap_or_default();
+            let text = std::fs::read_to_string(&path).unwrap_or_default();
+            match Case::from_text(&text, &|f| names_of(f)) {
+                Ok(mut case) => {
+                    if let Some(p) = get("--prop") {
+                        case.prop = p;
+                    }
+                    let pn = prop_num(&case.prop).unwrap_or(0);
+                    let mut journal = Journal { file: None };
+                    if fails_same(&case, pn, &mut journal).is_none() {
+                        println!("# does not fail");
+                        3
+                    } else {
+                        let mut budget = 4000u32;
+                        let (c2, f2) = ddmin_ops(case, pn, &mut journal, &mut budget);
+                        let tr = eval_case(&c2, EvalOpts { trace: true, want_state: false, progress: false });
+                        let mut t = text_of(&c2);
+                        t.push_str(&format!("# failure: property C{:02} site={} at op #{}\n", f2.prop, f2.site, f2.op_index));
+                        for line in f2.msg.lines() {
+                            t.push_str(&format!("# {}\n", line));
+                        }
+                        t.push_str("# resolved history:\n");
+                        for l in &tr.trace {
+                            t.push_str(&format!("#   {}\n", l));
+                        }
+                        print!("{}", t);
+                        println!("# site={}", f2.site);
+                        1
+                    }
+                }
+                Err(e) => {
+                    eprintln!("cannot parse: {}", e);
+                    2
+                }
+            }
+        }
         "list" => {
             let prop = get("--prop").unwrap_or_default();
             if let Some(pn) = prop_num(&prop) {
